@@ -51,6 +51,11 @@ PKG[C36-1]=libraries/doltcore/sqle/sqlfmt; TESTS[C36-1]="./libraries/doltcore/sq
 PKG[C36-2]=libraries/doltcore/table/untyped/sqlexport; TESTS[C36-2]="./libraries/doltcore/table/untyped/sqlexport/"
 PKG[C37]=libraries/doltcore/doltdb; TESTS[C37]="./libraries/doltcore/doltdb/"
 PKG[C43]=libraries/doltcore/sqle/enginetest; TESTS[C43]="./libraries/doltcore/sqle/dprocedures/"
+PKG[C22-2]=libraries/doltcore/sqle/enginetest; TESTS[C22-2]="./libraries/doltcore/sqle/dsess/"
+PKG[C37-2]=libraries/doltcore/schema/encoding; TESTS[C37-2]="./libraries/doltcore/schema/... ./libraries/doltcore/sqle/enginetest/"
+PKG[C41]=store/nbs; TESTS[C41]="./store/nbs/"
+PKG[C45-1]=libraries/doltcore/sqle/cluster; TESTS[C45-1]="./libraries/doltcore/sqle/cluster/"
+PKG[C45-2]=libraries/doltcore/sqle; TESTS[C45-2]="./libraries/doltcore/sqle/"
 mode=$1; shift
 for s in "$@"; do
   p=${s%-*}
